@@ -124,8 +124,7 @@ def resolve(key, n):
             return None, True
         return [i % n], True
     if 's' in key:
-        a, b = key['s']
-        return list(range(n))[a:b], False
+        return list(range(n))[slice(*key['s'])], False
     if 'l' in key:
         if any(not (0 <= i < n) for i in key['l']):
             return None, False
@@ -268,7 +267,10 @@ class QuiltWorld(WorldBase):
             return {'i': ch.randint(-n, n - 1)}
         if k == 's':
             a = ch.randint(0, n - 1)
-            return {'s': [a, ch.randint(a + 1, n)]}
+            b = ch.randint(a + 1, n)
+            if ch.chance(0.3):
+                return {'s': [a, b, ch.randint(2, 3)]}
+            return {'s': [a, b]}
         if k == 'l':
             sel = ch.sample(range(n), ch.randint(1, n))
             # on a hierarchical axis only index-ordered selections are tree-form; elsewhere mostly ordered too
@@ -450,10 +452,12 @@ class QuiltWorld(WorldBase):
                 return None
             return labels[key['i']]
         if 's' in key:
-            a, b = key['s']
+            a, b = key['s'][:2]
             sel = labels[a:b]
             if not sel:
                 return None
+            if len(key['s']) > 2:
+                return slice(sel[0], sel[-1], key['s'][2])
             return slice(sel[0], sel[-1])
         if 'l' in key:
             if any(not (0 <= i < n) for i in key['l']):
